@@ -73,6 +73,7 @@ class Worker:
             ok = True
             e_sub, e_org = L.Evaluator(sub), L.Evaluator(model)
             for target, key in targets:
+                both = {}
                 for which, evx in (('extracted', e_sub), ('original', e_org)):
                     try:
                         got = xl.to_abs(evx.evaluate(target))
@@ -85,7 +86,13 @@ class Worker:
                         bad(f'evaluate-{which}', fresh[key], got)
                         ok = False
                         break
+                    both[which] = got
                 if not ok:
+                    break
+                # where the specification leaves the value open, the two models must still agree with each other
+                if fresh[key].get('t') == 'open' and len(both) == 2 and both['extracted'] != both['original']:
+                    bad('extracted-differs-from-original', both['original'], both['extracted'])
+                    ok = False
                     break
             if not ok:
                 continue
